@@ -175,17 +175,67 @@ func c16Case(c *Ctx) {
 			rec    spg.CharRecipe
 			p      string
 			accept bool
+			script []uint32
 		}{
-			{spg.CharRecipe{Length: 1, AllowChars: "bcdefghi", RequireSets: []string{"a"}}, "1/9", true},
-			{spg.CharRecipe{Length: 1, AllowChars: "bcdefgh", RequireSets: []string{"a"}}, "1/8", true},
-			{spg.CharRecipe{Length: 1, AllowChars: "bcdefghijk", RequireSets: []string{"a"}}, "1/11", false},
-			{spg.CharRecipe{Length: 1, AllowChars: "bcdefghijklm", RequireSets: []string{"a"}}, "1/13", false},
+			{spg.CharRecipe{Length: 1, AllowChars: "bcdefghi", RequireSets: []string{"a"}}, "1/9", true, nil},
+			{spg.CharRecipe{Length: 1, AllowChars: "bcdefgh", RequireSets: []string{"a"}}, "1/8", true, nil},
+			{spg.CharRecipe{Length: 1, AllowChars: "bcdefghijk", RequireSets: []string{"a"}}, "1/11", false, nil},
+			{spg.CharRecipe{Length: 1, AllowChars: "bcdefghijklm", RequireSets: []string{"a"}}, "1/13", false, nil},
+			// the same border with the requirement given as class flags, alone or next to custom sets
+			{spg.CharRecipe{Length: 1, Allow: spg.Letters, Require: spg.Digits}, "10/62", true, nil},
+			{spg.CharRecipe{Length: 1, Allow: spg.Letters, Require: spg.Symbols}, "6/58", true, nil},
+			{spg.CharRecipe{Length: 1, Allow: spg.Uppers | spg.Digits, Require: spg.Symbols}, "6/42", true, nil},
+			{spg.CharRecipe{Length: 1, Allow: spg.Letters | spg.Digits, Require: spg.Symbols}, "6/68", false, nil},
+			{spg.CharRecipe{Length: 1, Allow: spg.Letters | spg.Digits, Require: spg.Symbols, ExcludeChars: "!"}, "5/67", false, nil},
+			{spg.CharRecipe{Length: 1, Require: spg.Digits | spg.Symbols}, "0 (two classes, one character)", false, nil},
+			{spg.CharRecipe{Length: 2, Require: spg.Digits | spg.Symbols, ExcludeChars: "!*-.@"}, "20/121 (candidate _0)", true, []uint32{tape.Last, 0}},
+			{spg.CharRecipe{Length: 1, Allow: spg.Letters | spg.Digits, AllowChars: "-", RequireSets: []string{"-_"}}, "2/64", false, nil},
+			{spg.CharRecipe{Length: 1, Allow: spg.Lowers, Require: spg.Digits, RequireSets: []string{"0123456789"}}, "10/36 (flag and set name the same class)", true, nil},
 		} {
-			g := runGen(tc.rec, &tape.Tape{Script: []uint32{0}, AutoExtend: true})
+			script := tc.script
+			if script == nil {
+				script = []uint32{0}
+			}
+			g := runGen(tc.rec, &tape.Tape{Script: script, AutoExtend: true})
 			c.Exec(1)
 			c.Distinct("nontrivial", "threshold:"+tc.p)
 			if tc.accept != (g.Err == nil && g.Panic == nil) {
 				c.Violate("retry-budget-defaults", fmt.Sprintf("with the documented defaults (200 attempts, failure tolerance 1e-9) a recipe with single-attempt success %s must be %s; Generate gave err=%v", tc.p, map[bool]string{true: "served", false: "refused"}[tc.accept], g.Err), nil)
+			}
+		}
+		// the budget itself: exactly 200 candidates are tried, no fewer and no more, whatever the length
+		for _, form := range []spg.CharRecipe{
+			{Length: 1, AllowChars: "b", RequireSets: []string{"a"}},
+			{Length: 1, AllowChars: "ab", Require: spg.None, RequireSets: []string{"a", "a"}},
+		} {
+			for _, k := range []int{1, 2, 198, 199, 200, 201} {
+				script := make([]uint32, k+1)
+				for i := 0; i < k; i++ {
+					script[i] = 1 // "b": the candidate misses the requirement
+				}
+				t := &tape.Tape{Script: script, AutoExtend: true, MaxDraws: 1000}
+				g := runGen(form, t)
+				c.Exec(1)
+				c.Distinct("nontrivial", fmt.Sprintf("budget:%d-failures", k))
+				switch {
+				case k < 200 && (g.Pw == nil || g.Pw.String() != "a" || t.Draws != k+1):
+					c.Violate("retry-budget-defaults", fmt.Sprintf("with the documented defaults, %d failed candidates followed by a valid one: Generate gave pw=%v err=%v after %d draws; the valid candidate of attempt %d is within the 200", k, g.Pw, g.Err, t.Draws, k+1), nil)
+				case k >= 200 && (g.Pw != nil || g.Err == nil || t.Draws != 200):
+					c.Violate("retry-budget-defaults", fmt.Sprintf("with the documented defaults, %d failed candidates in a row: Generate gave pw=%v err=%v after %d draws; the budget is 200 attempts", k, g.Pw, g.Err, t.Draws), nil)
+				}
+			}
+		}
+		for _, L := range []int{2, 7, 64, 198, 199, 200, 201, 250, 1000} {
+			script := make([]uint32, L)
+			for i := range script {
+				script[i] = 1 // first candidate all "b"
+			}
+			t := &tape.Tape{Script: script, AutoExtend: true, MaxDraws: 300000}
+			g := runGen(spg.CharRecipe{Length: L, AllowChars: "ab", RequireSets: []string{"a"}}, t)
+			c.Exec(1)
+			c.Distinct("nontrivial", fmt.Sprintf("budget:length-%d", L))
+			if g.Pw == nil || t.Draws != 2*L {
+				c.Violate("retry-budget-defaults", fmt.Sprintf("Length %d, first candidate invalid, second valid: Generate gave pw=%v err=%v after %d draws; a second attempt is within the budget", L, g.Pw != nil, g.Err, t.Draws), nil)
 			}
 		}
 		if spg.CSNone != "none" || spg.CSFirst != "first" || spg.CSAll != "all" || spg.CSRandom != "random" || spg.CSOne != "one" {
